@@ -22,10 +22,14 @@ func main() {
 		scratch = flag.String("scratch", "", "internal")
 		replay  = flag.String("replay", "", "replay a witness file")
 		verif   = flag.String("verif", "/verif", "verification directory")
+		out     = flag.String("out", "", "output directory for evidence/replay/scratch (default: the verification directory)")
 		list    = flag.Bool("list", false, "list properties")
 	)
 	flag.Parse()
 
+	if *out == "" {
+		*out = *verif
+	}
 	if *list {
 		ids := []string{}
 		for id := range props {
@@ -71,7 +75,7 @@ func main() {
 			fmt.Println("unknown property in replay file:", w.Property)
 			os.Exit(2)
 		}
-		os.Exit(parentMain(p, w.Tier, w.Seed, *verif, w.Case))
+		os.Exit(parentMain(p, w.Tier, w.Seed, *verif, *out, w.Case))
 	}
 
 	p := props[*propID]
@@ -87,5 +91,5 @@ func main() {
 		workerMain(p, *tier, seed, *shard, *nshards, *from, *only, *scratch)
 		return
 	}
-	os.Exit(parentMain(p, *tier, seed, *verif, *only))
+	os.Exit(parentMain(p, *tier, seed, *verif, *out, *only))
 }
